@@ -30,8 +30,10 @@ struct Isolated {
 	uint64_t hash = 0;
 	std::vector<sim::Violation> violations;
 	bool inconclusive = false;
+	std::vector<std::string> log;
 };
-Isolated run_isolated(const Plan &p);
+// executes the plan in a forked child: a sanitizer abort, crash or hang of libksi cannot take the checking process with it
+Isolated run_isolated(const Plan &p, bool trace = false);
 
 using Pred = std::function<bool(const Plan &)>;
 Plan minimise(const Plan &p, Engine *e, const Pred &still_fails, int max_execs, int max_wall_s, uint64_t *execs_out);
